@@ -21,6 +21,8 @@ ENGINES = [
      "kind_free_text": "exact-rational per-unit factors in TLA+; alter/set/reset state machine; sequences replayed on real Systems"},
     {"name": "config", "path": "spec/Config.tla spec/Scen_Config.tla spec/Trace_Config.tla vh/confdrv.py", "serves_properties": ["C20"],
      "kind_free_text": "TLA+ model of configuration channel precedence; channel combinations replayed on real Systems"},
+    {"name": "solvercache", "path": "spec/SolverCache.tla spec/Scen_Solver.tla spec/Trace_SolverCache.tla vh/solverdrv.py", "serves_properties": ["C16"],
+     "kind_free_text": "TLA+ model of the sparse-solver wrappers' caching protocol; call sequences replayed on the real wrappers"},
     {"name": "connectivity", "path": "spec/Connectivity.tla spec/Trace_Connectivity.tla spec/Scen_Connectivity.tla vh/conndrv.py vh/netbuild.py",
      "serves_properties": ["C12"], "kind_free_text": "graph definitions in TLA+ evaluated by TLC on logged graphs of real Systems; ConnMan model-checked"},
     {"name": "lifecycle", "path": "spec/Lifecycle.tla spec/Trace_Lifecycle.tla spec/Scen_Lifecycle.tla vh/lifecycle.py vh/infeasible.py",
@@ -137,6 +139,19 @@ CHECKS["C20"] = dict(
     note=TRUSTED.replace("vh/tdsdrv.py: ranks of floats, booleans computed on floats", "vh/confdrv.py: typed-string values read back from the config objects")
          + "Fields with host side effects (numba, dime, seed, numpy error state, plotting/report switches) are excluded; free-form "
            "string fields keep their default.")
+
+CHECKS["C16"] = dict(
+    engine="solvercache", design_ref="DESIGN.md 4 (C16)",
+    technique="TLC model checking of SolverCache for the three back-ends + TLC-enumerated call sequences on the real wrappers with "
+              "exactly solvable matrices + configuration-product runs, all validated by TLC",
+    text="The caching protocol of each wrapper (symbolic factor / LU, refresh flags, one-shot entry, singular handling) is "
+         "model-checked for 'every call documented to factorise solves the matrix it was given' and 'a singular matrix is "
+         "signalled by NaN'; all call sequences of length 2 (3 in thorough) over same-pattern / new-pattern / singular matrices are "
+         "executed on the real wrappers in worker processes and validated by TLC; PFlow/TDS/EIG results are compared across "
+         "{klu, umfpack, spsolve} x linsolve x ipadd x Newton variant and a fresh-process repetition must be bit-identical.",
+    note=TRUSTED.replace("vh/tdsdrv.py: ranks of floats, booleans computed on floats", "vh/solverdrv.py: result classes by comparison with exact solutions")
+         + "'Solver precision' is read as the routine tolerance. numba JIT is not exercised. Known finding: EIG does not run with "
+           "the SciPy back-end.")
 
 NOT_APPLICABLE = [
     {"property_id": "C07", "reason": "numeric accuracy / convergence order against closed-form and matrix-exponential references: no "
